@@ -537,3 +537,12 @@ def groups_file_text(scen):
 
     cfg = build_config(scen)
     return json.dumps([g.dict() for g in cfg.submission_groups], cls=ExtendedJSONEncoder, indent=1)
+
+
+@guard("pipeline_stage_submitted")
+def _g_pipeline_stage_submitted(w):
+    """The current stage has cluster files (a user can run try-submit-jobs on it) and the pipeline is not complete."""
+    d, sd = current_stage_dir(w)
+    if d is None or d.get("is_complete"):
+        return False
+    return os.path.exists(sd + "/cluster_config.json") and os.path.exists(sd + "/job_status.json")
